@@ -6,6 +6,7 @@ From Coq Require Import List ZArith Bool String.
 Import ListNotations.
 Require Import Pyrefact.Ops PyrefactGen.Tables PyrefactGen.TablesC15.
 Require Import Pyrefact.PyValModel Pyrefact.LitValModel Pyrefact.LitValProofs.
+Require Import Pyrefact.LitValRbModel Pyrefact.LitValRbProofs.
 Require Import Pyrefact.BoolRwModel Pyrefact.ConstFoldModel Pyrefact.ConstFoldProofs.
 Open Scope Z_scope.
 
@@ -116,7 +117,43 @@ Theorem T15_6_special_methods_unknown :
 Proof. exact dunder_unknown. Qed.
 Print Assumptions T15_6_special_methods_unknown.
 
+(* T15.7 (round 5, seed C15-d) literal_value is a function of (expression, names the file rebinds) ONLY.
+   [lv_rb rb] = LitValRbModel.lv_rb, the evaluator on a file that binds the names [rb] (guards of 415ff77 and
+   f968b0f); [eval_rb rb] = the reference semantics of a program that rebinds [rb] (a call through a rebound name
+   may do anything: no claim).  The harness compares every result of the real code -- first call of a process or
+   after other files -- with [lv_rb rb e] (harness/c15_history.py). *)
+(* a file that rebinds nothing: the model all theorems above are about *)
+Theorem T15_7a_nothing_rebound_is_lv : forall e, lv_rb [] e = lv e.
+Proof. exact lv_rb_nil. Qed.
+Print Assumptions T15_7a_nothing_rebound_is_lv.
+
+Theorem T15_7a_nothing_rebound_is_eval : forall env e, eval_rb [] env e = eval env e.
+Proof. exact eval_rb_nil. Qed.
+Print Assumptions T15_7a_nothing_rebound_is_eval.
+
+(* soundness under rebinding, full strength: a value returned on a file that rebinds [rb] is Python's value in
+   every program that rebinds [rb], whatever it binds the names to -- no call through a rebound name is reached *)
+Theorem T15_7b_known_is_python_value_under_rebinding :
+  forall rb env e v, lv_rb rb e = LKnown v -> eval_rb rb env e = Val v.
+Proof. exact lv_rb_sound. Qed.
+Print Assumptions T15_7b_known_is_python_value_under_rebinding.
+
+(* a direct call of a name the file binds never has a known value *)
+Theorem T15_7c_rebound_call_unknown : forall rb f args kws v,
+  mem_str f rb = true -> lv_rb rb (ECall f args kws) <> LKnown v.
+Proof. exact rebound_call_unknown. Qed.
+Print Assumptions T15_7c_rebound_call_unknown.
+
+(* the rebound set is a real argument: len('a') is 1 where len is left alone and unknown where the file defines
+   len, so a result remembered by expression alone is wrong in one of the two files *)
+Theorem T15_7d_result_depends_on_rebound_set :
+  lv_rb [] len_a = LKnown (VInt 1) /\ lv_rb ["len"%string] len_a = LUnknown /\ lv len_a = LKnown (VInt 1).
+Proof. exact lv_rb_depends_on_rebound_set. Qed.
+Print Assumptions T15_7d_result_depends_on_rebound_set.
+
 (* non-trivial inputs meeting the hypotheses *)
+Example ex_rb_known : lv_rb ["len"%string] (EBool true [EConst (VInt 0); ECall "len" [EConst (VStr [97])] []]) = LKnown (VInt 0).
+Proof. vm_compute. reflexivity. Qed.
 Example ex_dead_if : dead_if (SIf (ECmp (EConst (VInt 1)) [(CLt, EConst (VInt 2))]) [SAtom 1] [SAtom 2]) = Some [SAtom 1].
 Proof. vm_compute. reflexivity. Qed.
 Example ex_while_else_kept : dead_if (SWhile (EConst (VInt 0)) [SAtom 1] [SAtom 2]) = None.
